@@ -335,7 +335,7 @@ func runWheelScenario(sc *Scenario) *RunData {
 //	               runs under the policy mutex), with gaps in which a ticker that
 //	               waits for the mutex gets it
 func genC04Store(g *gen, tier string) *Scenario {
-	fam := pick(g, "store-ttl", "store-ttl-seq", "store-ttl-seq", "store-busy")
+	fam := pick(g, "store-ttl", "store-ttl-seq", "store-ttl-seq", "store-busy", "store-restart")
 	sc := &Scenario{Family: fam, Sim: g.sim(), Params: map[string]int64{}}
 	sc.Cache = g.cache(pick(g, "plain", "plain", "loading"))
 	sc.Cache.MaxSize = int64(pick(g, 16, 64)) // never full: at most 9 TTL keys + 3 churn keys
@@ -387,6 +387,27 @@ func genC04Store(g *gen, tier string) *Scenario {
 		}
 		sc.Clients = append(sc.Clients, ops)
 	}
+	if fam == "store-restart" {
+		// an operator client saves, closes, stays down for a while and loads the stream into a new
+		// cache once or twice while the writers go on: restored entries keep their wall-clock
+		// deadlines and must be reclaimed by the NEW cache's wheel within the same bounds
+		var ops []Op
+		var t int64
+		for n := g.rng(1, 2); n > 0; n-- {
+			d := int64(g.rng(0, 6000)) * ms
+			down := pick(g, int64(0), int64(g.rng(1, 3000))*ms, int64(g.rng(1, 40))*sec)
+			op := Op{Kind: "restart", Key: 5, Dur: down, N: pick(g, 0, 3, 4096)}
+			if g.pct(10) {
+				op.Cost = int64(g.rng(1, 99))
+			}
+			ops = append(ops, Op{Kind: "sleep", Dur: d}, op)
+			t += d + down
+		}
+		if t > maxEnd {
+			maxEnd = t
+		}
+		sc.Clients = append(sc.Clients, ops)
+	}
 	if fam == "store-busy" {
 		stall := int64(g.rng(100, 600)) * ms
 		sc.Stubs.ListenerSlowPct = 100
@@ -419,6 +440,8 @@ type c04val struct {
 	lo, hi   int64 // deadline within [lo, hi]; hasDL false: no deadline
 	hasDL    bool
 	unknown  bool  // deadline not decidable from the history (TTL-less overwrite racing the old deadline)
+	lost     bool  // the write began before a restart finished and the value was not in the new cache after LoadCache
+	lostAt   uint64 // sequence number at which that LoadCache had returned
 	nextInvT int64 // invocation time of the next write / delete of the key (-1: none)
 	nextRetT int64
 }
@@ -435,6 +458,7 @@ func checkC04(rd *RunData) []Violation {
 	var order []*c04val
 	type kstate struct {
 		cur *c04val // nil: absent
+		at  uint64  // invocation stamp of the call that established cur
 	}
 	keys := map[int]*kstate{}
 	for _, r := range sortedRecs(rd.Recs) {
@@ -446,6 +470,22 @@ func checkC04(rd *RunData) []Violation {
 			ks = &kstate{}
 			keys[r.Op.Key] = ks
 		}
+		// a restart between the call that established the key's state and this call: the key now
+		// holds what LoadCache restored for it (the value current at the save, if still alive), or
+		// nothing - whatever calls on the old, closed cache did meanwhile
+		for _, rs := range rd.Restarts {
+			if ks.at < rs.DoneSeq && rs.DoneSeq < r.Inv {
+				ks.cur = nil
+				if rs.Restored != nil {
+					for _, e := range rs.Restored.Resident {
+						if e.Key == r.Op.Key {
+							ks.cur = vals[e.Value]
+						}
+					}
+				}
+			}
+		}
+		ks.at = r.Inv
 		if ks.cur != nil {
 			ks.cur.nextInvT, ks.cur.nextRetT = r.InvT, r.RetT
 		}
@@ -480,6 +520,24 @@ func checkC04(rd *RunData) []Violation {
 				probe("c04.store-ttl-extended")
 			} else if v.hi < ks.cur.lo {
 				probe("c04.store-ttl-shortened")
+			}
+		}
+		for _, rs := range rd.Restarts {
+			if r.Inv < rs.DoneSeq {
+				if _, ok := rd.restoredVal(rs, r.Val); !ok {
+					v.lost, v.lostAt = true, rs.DoneSeq
+					probe("c04.store-value-not-restored")
+					break
+				}
+				probe("c04.store-value-restored")
+			}
+		}
+		if ks.cur != nil && r.Ret > 0 {
+			for _, rs := range rd.Restarts {
+				// a TTL-less Set that overlaps a restart may or may not have met the old entry
+				if r.Inv < rs.DoneSeq && r.Ret > rs.SaveSeq && r.Op.TTL == 0 {
+					v.unknown = true
+				}
 			}
 		}
 		vals[r.Val] = v
@@ -523,6 +581,13 @@ func checkC04(rd *RunData) []Violation {
 		if l.Reason != 2 || v.unknown {
 			continue
 		}
+		if v.lost {
+			// reported by the old cache before it went down: judged like any other; the new cache
+			// cannot report a value it never held
+			if l.Seq > v.lostAt {
+				vs = append(vs, Violation{"C04/early/store,not-restored-but-reported", fmt.Sprintf("key %d value %d was not resident right after a LoadCache but was reported EXPIRED after it, at t=%s", l.Key, l.Val, durStr(l.T))})
+			}
+		}
 		probe("c04.store-expired")
 		if !v.hasDL {
 			vs = append(vs, Violation{"C04/early/store,no-deadline" + busy, fmt.Sprintf("key %d value %d (%s at t=[%s,%s]) has no deadline but was reported EXPIRED at t=%s", l.Key, l.Val, v.r.Op, durStr(v.r.InvT), durStr(v.r.RetT), durStr(l.T))})
@@ -552,7 +617,7 @@ func checkC04(rd *RunData) []Violation {
 		}
 	}
 	for _, v := range order {
-		if v.unknown {
+		if v.unknown || v.lost {
 			continue
 		}
 		_, ok := noted[v.r.Val]
